@@ -191,3 +191,13 @@ pub fn binary_roundtrip_case(item: &Item, flags: &[&str], width: Option<u32>, us
 pub fn source_items(corpus: &Corpus) -> Vec<&Item> {
     corpus.sources().filter(|i| i.source.is_some()).collect()
 }
+
+/// Turn `decompile ... -o FILE` into `decompile ... > FILE` (stdout redirected to a sandbox file).
+pub fn decompile_to_stdout(step: &mut Step) {
+    if let Some(i) = step.argv.iter().position(|a| a == "-o") {
+        let file = step.argv[i + 1].clone();
+        step.argv.drain(i..i + 2);
+        step.optional = step.optional.iter().map(|&x| if x > i { x - 2 } else { x }).collect();
+        step.stdout_to = Some(file);
+    }
+}
